@@ -685,6 +685,15 @@ class CommandPipeline:
             ):
                 self._close_prev_procs()
             self._close_proc()
+            # Every threaded stage chained its own SIGINT handler in front of
+            # the previous one when it was created.  Only the last stage's
+            # wait() puts its handler back; the others stayed installed, so
+            # the chain grew with every command (and kept the threads alive).
+            # Unwind in reverse order of installation.
+            for p in reversed(self.procs):
+                restore = getattr(p, "_restore_sigint", None)
+                if restore is not None:
+                    restore()
             # Mark as ended even if an exception occurred (e.g. KeyboardInterrupt).
             # Without this, subsequent access to the pipeline would try to
             # re-read from already-closed pipes → ValueError.
